@@ -78,6 +78,14 @@ CLAIMS = {
                 note="constructor arguments of inferred variables (C11) are outside this check; T1, T3 tree-shape assumptions"),
 }
 CLAIMS.update({
+    'C13': dict(level=P, text="update_domain_and_kwargs_from_args: for every argument layout (domain given or not, 0..2 positional "
+                "fields, pre-existing keywords) the j-th positional field binds the j-th constructor parameter, keywords are "
+                "kept, a domain that is not first is rejected. extract_selected_variable_and_expression: an iterable domain is "
+                "replaced by the lazy filter of itself whose predicate is isinstance(., T), a Variable of type T is built over "
+                "it and the field constraints go unchanged to properties_to_expression_tree.",
+                note="properties_to_expression_tree / symbolic_new's wrapping (An(Entity(expr, [var]))) are exercised by the "
+                     "bounded predicate-form stand-in, not proved; equivalence with the explicit query then rests on C01/C02; "
+                     "argument lists longer than 3 follow the same loop (the spine is concrete in the proof)"),
     'C04': dict(level=P, text="Quiescent-state invariant by exit paths: An.evaluate and The.evaluate reset the whole expression "
                 "graph on every exit (normal, abandoned at a yield, exception out of user code); _reset_cache_ resets the node "
                 "and every child, _reset_only_my_cache_ re-creates both de-duplication sets, the per-parent sets and the "
@@ -132,6 +140,7 @@ ORACLES = {
             _oracle('predicates inside a sub-query used as a domain, under each ambient mode', 60, 800, kind='domain_subquery')],
     'C15': [_oracle('an(entity) sub-query as a condition, and/or', 150, 2000, kind='subquery'),
             _oracle('the(entity) as a comparison operand, correlated with the enclosing query', 100, 1500, kind='the_operand')],
+    'C13': [_oracle('predicate form vs explicit query, mixed-type domains, positional and keyword fields', 250, 4000, kind='predform', allow_empty=True)],
     'C04': [_oracle('histories of full / partial / aborted evaluations (result cache on)', 200, 3000, kind='history'),
             _oracle('histories (result cache off)', 100, 1500, kind='history', caching=False),
             _oracle('histories over a domain that lists an object twice', 100, 1500, kind='history', duplicates=True)],
